@@ -63,7 +63,27 @@ func (r *evenRanger) Range() (reflect.Value, reflect.Value, bool) {
 }
 func (r *evenRanger) ProvidesIndex() bool { return false }
 
+// collections behind more than one indirection: a pointer to a pointer, a field of a non-empty interface
+// type, a pointer to an interface - the ranger follows all of them down to the slice / map / channel
+type lenIface interface{ Len() int }
+type lenSlice []int
+
+func (s lenSlice) Len() int { return len(s) }
+
+type indirData struct {
+	PP   **[]int
+	PPM  **map[string]int
+	L    lenIface
+	PI   *interface{}
+	PL   *lenIface
+	Inner struct{ Q **[]string }
+}
+
 func genRangerCase(r *h.Rand) h.Case {
+	if r.Chance(35) {
+		return h.Case{Stream: "rangers", NoModel: true, NonTrivial: true, Tags: []string{"indirect"},
+			Cmd: sx.L(sx.A("indirect-range"), sx.I(int64(r.Intn(4))), sx.I(int64(r.Intn(6))), sx.I(int64(r.Intn(50))))}
+	}
 	n := r.Intn(4)
 	kind := r.Pick([]string{"slice", "map", "ptr", "chan"})
 	form := r.Intn(4)
@@ -72,6 +92,67 @@ func genRangerCase(r *h.Rand) h.Case {
 }
 
 func init() {
+	h.RegisterImpl("indirect-range", func(cmd, _ *sx.Sexp) (*sx.Sexp, string) {
+		n := atoi(cmd.Xs[1].A)
+		which := atoi(cmd.Xs[2].A)
+		base := atoi(cmd.Xs[3].A)
+		xs := []int{}
+		ss := []string{}
+		for i := 0; i < n; i++ {
+			xs = append(xs, base+i)
+			ss = append(ss, fmt.Sprintf("s%d", base+i))
+		}
+		pxs := &xs
+		m := map[string]int{}
+		if n > 0 {
+			m["k"] = base
+		}
+		pm := &m
+		var any interface{} = xs
+		var li lenIface = lenSlice(xs)
+		pss := &ss
+		d := indirData{PP: &pxs, PPM: &pm, L: lenSlice(xs), PI: &any, PL: &li}
+		d.Inner.Q = &pss
+		field := []string{".PP", ".L", ".PI", ".PL", ".Inner.Q", ".PPM"}[which]
+		src := `{{range i, x := ` + field + `}}{{i}}={{x}};{{else}}E{{end}}|{{range ` + field + `}}<{{.}}>{{else}}E{{end}}|`
+		want := ""
+		seq := func(f func(i int) string) string {
+			o := ""
+			for i := 0; i < n; i++ {
+				o += f(i)
+			}
+			if n == 0 {
+				o = "E"
+			}
+			return o + "|"
+		}
+		switch which {
+		case 4:
+			want = seq(func(i int) string { return fmt.Sprintf("%d=%s;", i, ss[i]) }) + seq(func(i int) string { return "<" + ss[i] + ">" })
+		case 5:
+			want = seq(func(i int) string { return fmt.Sprintf("k=%d;", base) }) + seq(func(i int) string { return fmt.Sprintf("<%d>", base) })
+			if n > 1 {
+				n = 1
+				want = seq(func(i int) string { return fmt.Sprintf("k=%d;", base) }) + seq(func(i int) string { return fmt.Sprintf("<%d>", base) })
+			}
+		default:
+			want = seq(func(i int) string { return fmt.Sprintf("%d=%d;", i, xs[i]) }) + seq(func(i int) string { return fmt.Sprintf("<%d>", xs[i]) })
+		}
+		set := newSetFor(map[string]string{"/t.jet": src}, "html", nil)
+		t, err := set.GetTemplate("/t.jet")
+		if err != nil {
+			return sx.L(sx.A("parse-error")), "range template did not parse: " + err.Error()
+		}
+		var buf bytes.Buffer
+		xerr := executeContained(t, &buf, nil, d)
+		if xerr != nil {
+			return sx.L(sx.A("err"), sx.S(xerr.Error())), "ranging over " + field + " (a collection behind several pointers / a non-empty interface) failed: " + clipS(xerr.Error())
+		}
+		if buf.String() != want {
+			return sx.L(sx.A("ok"), sx.S(buf.String())), fmt.Sprintf("%s renders %q, the %d elements demand %q", src, buf.String(), n, want)
+		}
+		return sx.L(sx.A("ok"), sx.S(buf.String())), ""
+	})
 	h.RegisterImpl("custom-ranger", func(cmd, _ *sx.Sexp) (*sx.Sexp, string) {
 		kind := cmd.Xs[1].A
 		n := atoi(cmd.Xs[2].A)
